@@ -304,7 +304,7 @@ def _failsafe_construct(element: Optional[etree._Element], constructor: Callable
         return None
     try:
         return constructor(element, **kwargs)
-    except (KeyError, ValueError, model.AASConstraintViolation) as e:
+    except (KeyError, ValueError, TypeError, model.AASConstraintViolation) as e:
         error_message = f"Failed to construct {_element_pretty_identifier(element)} using {constructor.__name__}!"
         if not failsafe:
             raise (type(e) if isinstance(e, (KeyError, ValueError)) else ValueError)(error_message) from e
